@@ -81,7 +81,7 @@ var tcpWorkerAssume = map[string][]heldLock{
 // tcpCutEdges: call edges ignored when computing what is held at entry of the
 // callee, one reason each (see DESIGN.md C01/R2).
 var tcpCutEdges = map[string]string{
-	"(*tcp.endpoint).connect->(*tcp.sender).updateMaxPayloadSize": "restore-only branch (handshake==false): the sole caller Connect passes handshake=true (rule R2-const checks that)",
+	"(*tcp.endpoint).connect->(*tcp.sender).updateMaxPayloadSize":          "restore-only branch (handshake==false): the sole caller Connect passes handshake=true (rule R2-const checks that)",
 	"(*tcp.endpoint).cleanupLocked->(*tcp.endpoint).resetConnectionLocked": "resets endpoints still sitting in the accept queue: no worker goroutine has been started for them yet",
 }
 
